@@ -92,6 +92,7 @@ namespace
         std::size_t max_live = 0; bool shrank = false, ever_live = false; std::string known_empty;
         for (long c = 0; c < total; ++c)
         {
+            std::set<long> before_keys; for (auto &[k, sset] : live) before_keys.insert(k);
             if (c < run.cycles && !run.script[static_cast<std::size_t>(c)].empty())
             {
                 std::map<long, std::set<long>> graveyard;   // a key erased and re-created in one cycle resurrects the same element (C05)
@@ -104,6 +105,11 @@ namespace
                     else if (op[0] == 'e') { if (live.count(k)) { graveyard[k] = live[k]; live.erase(k); shrank = true; } }
                 }
             }
+            // a key created in this cycle whose mutations cancelled (ends the cycle with an empty set it never published): whether that element
+            // counts as valid is C05's subject and not fixed by C11's statement - the rest of such a run is a don't-care
+            bool uncertain = false;
+            for (auto &[k, sset] : live) if (sset.empty() && !before_keys.count(k)) uncertain = true;
+            if (uncertain) break;
             max_live = std::max(max_live, live.size());
             if (!live.empty()) ever_live = true;
             std::set<long> want; bool want_valid = true;
